@@ -93,6 +93,8 @@ var whitelist = []FuncSpec{
 	{"pkg/provider", "LogoutResponse", "sendBackLogoutResponse"},
 	{"pkg/provider", "", "getLogoutRequestFromRequest"},
 	{"pkg/provider", "IdentityProvider", "logoutHandleFunc"},
+	{"pkg/provider", "", "makeAttributeQueryResponse"},
+	{"pkg/provider", "IdentityProvider", "attributeQueryHandleFunc"},
 }
 
 // extraFields are struct fields the hand-written handler models read although no translated function does.
@@ -1192,6 +1194,8 @@ func (c *tctx) effectResultCall(e ast.Expr) (eff val, result string, ok bool) {
 	if id, isId := sel.X.(*ast.Ident); isId {
 		if pn, isPkg := c.info.Uses[id].(*types.PkgName); isPkg && strings.HasSuffix(pn.Imported().Path(), "pkg/provider/xml") && sel.Sel.Name == "Write" {
 			name = "xmlWrite"
+		} else if isPkg && strings.HasSuffix(pn.Imported().Path(), "pkg/provider/xml") && sel.Sel.Name == "WriteXMLMarshalled" {
+			name = "xmlWriteMarshalled"
 		}
 	}
 	if name == "" {
@@ -1243,7 +1247,7 @@ func hasEffects(body *ast.BlockStmt, info *types.Info) bool {
 			}
 		}
 		if x, ok := n.(*ast.CallExpr); ok {
-			if sel, ok := x.Fun.(*ast.SelectorExpr); ok && len(x.Args) == 2 && (sel.Sel.Name == "Write" || sel.Sel.Name == "Execute") {
+			if sel, ok := x.Fun.(*ast.SelectorExpr); ok && len(x.Args) == 2 && (sel.Sel.Name == "Write" || sel.Sel.Name == "Execute" || sel.Sel.Name == "WriteXMLMarshalled") {
 				if t := info.TypeOf(x.Args[0]); t != nil && isIgnoredType(t) {
 					found = true
 				}
@@ -2344,6 +2348,12 @@ func (c *tctx) libCall(pkg, name string, x *ast.CallExpr) val {
 			if f, ok := c.info.Uses[sel.Sel].(*types.Func); ok {
 				return c.funcOracle(f, x)
 			}
+		}
+	}
+	if (pkg == "io/ioutil" || pkg == "io") && name == "ReadAll" && len(x.Args) == 1 {
+		if sel, ok := x.Args[0].(*ast.SelectorExpr); ok && sel.Sel.Name == "Body" && isIgnoredType(c.info.TypeOf(sel.X)) {
+			// the body of the request being served
+			return val{e: c.oracle("readBody", "Lib.Bytes × Err", "ioutil.ReadAll(r.Body) of the request being served")}
 		}
 	}
 	es, g := c.args(x)
